@@ -62,8 +62,10 @@ def try_(name, patch, props, tier):
     rc_all = 0
     for p in props:
         r = sh(["./check", p, "--tier", tier], cwd=verif, env=env)
-        lines = [l for l in r.stdout.splitlines() if l.startswith(("VIOLATION", "KNOWN-FINDING")) or l.startswith(p + ":")]
-        print("%s exit=%d %s" % (p, r.returncode, " | ".join(lines)[:600]))
+        out_lines = r.stdout.splitlines()
+        lines = [l for l in out_lines if l.startswith("VIOLATION") or l.startswith(p + ":")]
+        nk = sum(1 for l in out_lines if l.startswith("KNOWN-FINDING"))
+        print("%s exit=%d %s | known-findings=%d" % (p, r.returncode, " | ".join(lines)[:900], nk))
         if r.returncode not in (0, 1):
             print(r.stdout[-2000:])
         rc_all |= r.returncode
